@@ -310,8 +310,8 @@ class C16(Check):
             'node reachable from the output, enumerated; the mutated declarations must raise exactly the error class '
             'paired with the defect and return no DAG; non-trivial = the defective node is reached through a non-Input '
             'mark (switch node, case, candidate, recurrent destination / start)')
-    quick_examples = 150
-    thorough_examples = 800
+    quick_examples = 800
+    thorough_examples = 3000
     assumptions = ('the defect is placed on a node reachable from the output; the rest of the program is valid',)
 
     def strategy(self, tier):
@@ -389,8 +389,8 @@ class C20(Check):
             'type), one edge entry per DAG edge with existing endpoints and pairwise distinct ids, node_types covering '
             'every occurring type; json.dumps(as_dict()) round-trips; the DAG snapshot is unchanged; non-trivial = >=1 '
             'synthetic node; programs = distinct specs, disagreements_checked = configs compared')
-    quick_examples = 250
-    thorough_examples = 1500
+    quick_examples = 1200
+    thorough_examples = 5000
     assumptions = ('importlib_resources (used only to copy static viewer files) is stubbed when it is not installed',
                    'node classes use the node types the engine declares (NodeType); custom strings: known finding F18')
 
